@@ -460,6 +460,40 @@ fn options_space(rep: &Report) {
             rep.violation(format!("options|write-inf|{}", hex(w.unwrap_or(b"-"))), format!("C18 WriteFloatOptions inf_string {:?}: is_valid={} build.is_ok={} ; documented validity = {}", show, b.is_valid(), b.build().is_ok(), vi));
         }
     }
+    // the three validators of one builder agree on every (nan, inf, infinity) triple, and what
+    // build() hands out calls itself valid
+    for &n in &words {
+        for &i in &words {
+            for &f in &words {
+                fam.states += 1;
+                fam.cases += 1;
+                fam.calls += 3;
+                let b = ParseFloatOptions::builder().nan_string(n).inf_string(i).infinity_string(f);
+                let v = b.is_valid();
+                let built = b.build();
+                let strict_ok = guarded(|| b.build_strict()).is_ok();
+                let self_valid = built.as_ref().map_or(true, |o| o.is_valid());
+                if v != built.is_ok() || v != strict_ok || !self_valid {
+                    rep.violation(
+                        format!("options|parse-triple|{}|{}|{}", hex(n.unwrap_or(b"-")), hex(i.unwrap_or(b"-")), hex(f.unwrap_or(b"-"))),
+                        format!("C18 ParseFloatOptions nan={:?} inf={:?} infinity={:?}: is_valid()={} build().is_ok()={} build_strict() returns={} built.is_valid()={}", n.map(show_bytes), i.map(show_bytes), f.map(show_bytes), v, built.is_ok(), strict_ok, self_valid),
+                    );
+                }
+            }
+        }
+        for &i in &words {
+            let b = WriteFloatOptions::builder().nan_string(n).inf_string(i);
+            let v = b.is_valid();
+            let built = b.build();
+            let strict_ok = guarded(|| b.build_strict()).is_ok();
+            if v != built.is_ok() || v != strict_ok || !built.as_ref().map_or(true, |o| o.is_valid()) {
+                rep.violation(
+                    format!("options|write-pair|{}|{}", hex(n.unwrap_or(b"-")), hex(i.unwrap_or(b"-"))),
+                    format!("C18 WriteFloatOptions nan={:?} inf={:?}: is_valid()={} build().is_ok()={} build_strict() returns={}", n.map(show_bytes), i.map(show_bytes), v, built.is_ok(), strict_ok),
+                );
+            }
+        }
+    }
     // digit counts and breaks of the write options
     use core::num::{NonZeroI32, NonZeroUsize};
     let counts = [None, NonZeroUsize::new(1), NonZeroUsize::new(2), NonZeroUsize::new(17), NonZeroUsize::new(300)];
